@@ -1039,6 +1039,16 @@ class QuantityMeta(ClassWithDefinitionMeta):
         cls = super().__new__(mcs, name, bases, clsdict,
                               define_as=define_as)
         assert isinstance(cls, QuantityMeta)
+        # check the definition before creating the reference unit, so that
+        # a rejected class does not leave a registered unit behind
+        if define_as is not None:
+            try:
+                reg_cls = QuantityMeta._registry[define_as]
+            except KeyError:
+                pass
+            else:
+                raise ValueError("Item with same or equivalent definition "
+                                 f"already registered: '{reg_cls}'.")
         # each class needs its own map of units (otherwise the reference unit
         # would be registered in the map of its base class)
         cls._unit_map = {}
